@@ -707,8 +707,16 @@ pub mod atomic_shim {
         pub fn load(&self, order: Ordering) -> (r: u64) ensures r == self.v { self.v }
         pub fn store(&mut self, val: u64, order: Ordering) ensures final(self).v == val { self.v = val; }
     }
+    /// flags (not used by the pinned code; keeps a plausible new field within the verifier's reach)
+    pub struct AtomicBool { pub v: bool }
+    impl AtomicBool {
+        pub fn new(v: bool) -> (r: Self) ensures r.v == v { AtomicBool { v } }
+        pub fn swap(&mut self, val: bool, order: Ordering) -> (r: bool) ensures r == old(self).v, final(self).v == val { let r = self.v; self.v = val; r }
+        pub fn load(&self, order: Ordering) -> (r: bool) ensures r == self.v { self.v }
+        pub fn store(&mut self, val: bool, order: Ordering) ensures final(self).v == val { self.v = val; }
+    }
 }
-pub use atomic_shim::{AtomicU64, Ordering};
+pub use atomic_shim::{AtomicBool, AtomicU64, Ordering};
 
 // more std pieces vstd does not specify (not used by the pinned code; they keep plausible edits within the verifier's reach)
 pub assume_specification<T, A: std::alloc::Allocator> [VecDeque::<T, A>::front] (v: &VecDeque<T, A>) -> (r: Option<&T>)
